@@ -327,7 +327,8 @@ def check_full(rng, rec):
         s += core2
         p1 = len(s)
     if year:
-        s += " (" + (court + " " if court else "") + str(year) + ")"
+        ob, cb = rng.choice([("(", ")"), ("(", ")"), ("(", ")"), ("[", "]")])   # '[1999]' is accepted like '(1999)'
+        s += " " + ob + (court + " " if court else "") + str(year) + cb
     if par:
         s += " (" + par + ")"
     cite_end = len(s)
